@@ -160,6 +160,8 @@ func vpValueOf(x Item) Item {
 		return *p
 	case *Tombstone:
 		return *p
+	case *Link:
+		return *p
 	}
 	return x
 }
